@@ -9,7 +9,7 @@ From LV Require Import Build.Rebuild.
 Import ListNotations.
 (* instantiation: texts are numbers, the generated body of text k is [k] (valid texts only),
    the hash line of k is [1000+k], the version line [7], newline 0 *)
-Definition valid (k : nat) : bool := Nat.ltb k 3.
+Definition valid (k : nat) : bool := Nat.ltb k %d.
 Definition gen (k : nat) : option (list nat) := if valid k then Some [k] else None.
 Definition hash (k : nat) : list nat := [1000 + k].
 Definition ver : list nat := [7].
@@ -60,6 +60,12 @@ def gen_history(r, n):
         k = r.random()
         if k < 0.3:
             ops.append(("edit", r.randrange(len(fsrun.TEXTS))))
+            if r.random() < 0.4:
+                # ... then build and switch to a text that differs only in its line terminators
+                t = r.choice(sorted(fsrun.SIBLINGS))
+                ops[-1] = ("edit", fsrun.TEXTS.index(t))
+                ops.append(("build", r.random() < 0.3))
+                ops.append(("edit", fsrun.TEXTS.index(r.choice(fsrun.SIBLINGS[t]))))
         elif k < 0.4:
             ops.append(("touch",))
         elif k < 0.7:
@@ -91,14 +97,14 @@ def run(tier):
         ops = gen_history(r, r.randint(4, 12))
         d = fsrun.fresh_dir("h%d" % hi)
         src, out = os.path.join(d, "a.lalrpop"), os.path.join(d, "a.rs")
-        open(src, "w").write(fsrun.text_of(fsrun.TEXTS[0]))
+        open(src, "w", newline="").write(fsrun.text_of(fsrun.TEXTS[0]))
         cur = 0
         coq_ops, observed, writes = [], [], 0
         for op in ops:
             before = os.stat(out) if os.path.exists(out) else None
             if op[0] == "edit":
                 cur = op[1]
-                open(src, "w").write(fsrun.text_of(fsrun.TEXTS[cur]))
+                open(src, "w", newline="").write(fsrun.text_of(fsrun.TEXTS[cur]))
                 coq_ops.append("Edit nat nat %d" % cur)
             elif op[0] == "touch":
                 os.utime(src, None)
@@ -144,7 +150,7 @@ def run(tier):
             observed.append("(%s, %d)" % ("None" if a is None else "Some [%s]" % "; ".join(map(str, a)), writes))
         checks.append("obs_eqb (run [%s]) [%s]" % ("; ".join(coq_ops), "; ".join(observed)))
         metas.append(ops)
-    bad = vlib.coq_eval_cases("c21", HEADER, checks, shard_size=100)
+    bad = vlib.coq_eval_cases("c21", HEADER % fsrun.NVALID, checks, shard_size=100)
     if bad and nviol == 0:
         for i in bad[:2]:
             rep.violation("model-vs-impl", {"what": "the file-system effects of the real binary along this history differ from the model Build/Rebuild.v (outputs or the set of builds that rewrote the file)",
